@@ -1,7 +1,7 @@
 INIT Init
 NEXT Next
 CONSTANTS
-  Shapes <- cShapesNoSens
+  Shapes <- cShapes
   SymNames <- cSyms
   NameSeq <- cNoSeq
   SensorNames <- cSensors
@@ -16,18 +16,19 @@ CONSTANTS
   CalVals <- cCalVals
   PNoiseVals <- cPNoise
   SNoiseVals <- cSNoise
-  Ks <- cKsNone
+  Ks <- cKsAll
   PDiag <- cPDiag
   PVec <- cPVec
   ZDeltas <- cZDeltas
-  Acts <- cActsPredict
+  Acts <- cActsAll
   MinSteps = 3
-  MaxSteps = 5
+  MaxSteps = 6
   RationalOnly = TRUE
-  Twins = FALSE
+  Twins = TRUE
   NeedDt = FALSE
   BindLeaves = TRUE
   EmitOn = TRUE
+INVARIANT InvRenaming
 INVARIANT InvCovValid
 INVARIANT InvUpdate
 INVARIANT InvReject
